@@ -14,6 +14,16 @@ PROPS = {
         "not_decided": ["run.rs/scan.rs wiring, injected languages, ordering across files"],
         "assumptions": [],
     },
+    "C03": {
+        "units": [("strictness", r"^(?!<Cow as Aggregator>::match_meta_var)")],
+        "kani": [],
+        "decided": ["match_terminal == the documented strictness table (kinds agree incl. ERROR wildcard; named terminals need equal text except under signature; only unnamed / comment candidates are ever skipped; only unnamed goal terminals are skipped)",
+                    "should_skip_trailing table", "named holes bind only named nodes (match_leaf_meta_var)",
+                    "$$$VAR binds a prefix of the run handed over, minus the skipped trailing trivia (consecutive siblings)",
+                    "ComputeEnd records the end offset of a node of the aligned region"],
+        "not_decided": ["existence of a legal alignment for child lists (match_nodes_impl_recursive / may_match_ellipsis_impl: Peekable state machine over FFI-backed iterators)"],
+        "assumptions": ["MetaVarEnv::insert / insert_multi obey the statements in prelude/env_ops.rs"],
+    },
     "C04": {
         "units": [("ops", MATCH), ("rule_core", MATCH + "|do_match"), ("rule", MATCH + "|match_and_add_label")],
         "kani": [],
@@ -22,8 +32,8 @@ PROPS = {
         "assumptions": [],
     },
     "C05": {
-        "units": [("ops", MATCH), ("rule", MATCH + "|match_and_add_label")],
-        "kani": [K("config", "is_matched_witness", "An+B: when is_matched accepts index i, n=(i-B)/A is >= 0 and A*n+B == i (i32 x i32 x u32, loop-free)", complete=True),
+        "units": [("ops", MATCH), ("rule", MATCH + "|match_and_add_label"), "nth_child"],
+        "kani": [
                  K("config", "numeric_position_exact", "numeric nthChild position selects exactly that 1-based index; values beyond i32 are rejected, not truncated", complete=True),
                  K("config", "parse_an_b_len4", "parse_an_b vs reference An+B grammar", bound="strings over {9,1,n,+,-,space}, length <= 4"),
                  K("config", "parse_an_b_len7", "parse_an_b vs reference An+B grammar", bound="strings over {9,1,n,+,-,space}, length <= 7", tier="thorough")],
@@ -39,6 +49,15 @@ PROPS = {
                     "perform_edit applies the edit to the old tree exactly once; Root::do_edit satisfies the precondition of the incremental parse (one edit, right descriptor) and leaves a clean tree for the spliced text"],
         "not_decided": ["tree-sitter re-parse with a correctly edited old tree equals a fresh parse (assumed contract of the dependency)"],
         "assumptions": ["tree_sitter::Point is a plain (row, column) carrier"],
+    },
+    "C11": {
+        "units": [("strictness", r"match_meta_var|match_leaf_meta_var"), "nth_child"],
+        "kani": [K("config", "numeric_position_exact", "numeric nthChild: no panic, no truncation", complete=True),
+                 K("config", "parse_an_b_len4", "parse_an_b: no panic/overflow", bound="strings over {9,1,n,+,-,space}, length <= 4"),
+                 K("config", "parse_an_b_len11", "parse_an_b: no overflow on 11-digit numbers", bound="digit strings over {9,1,n}, length <= 11", tier="thorough")],
+        "decided": ["debug assertions of the leaf matcher are proof obligations (R5)", "nthChild parsing never overflows"],
+        "not_decided": ["serde_yaml / regex / globset internals; stack depth for deeply nested YAML"],
+        "assumptions": [],
     },
     "C20": {
         "units": [],
